@@ -22,8 +22,8 @@ import traceback
 from fractions import Fraction
 
 VERIF = os.path.dirname(os.path.dirname(os.path.abspath(__file__)))
-EVIDENCE_DIR = os.path.join(VERIF, 'evidence')
-REPLAY_DIR = os.path.join(VERIF, 'replays')
+EVIDENCE_DIR = os.environ.get('VERIF_EVIDENCE_DIR') or os.path.join(VERIF, 'evidence')
+REPLAY_DIR = os.environ.get('VERIF_REPLAY_DIR') or os.path.join(VERIF, 'replays')
 KNOWN = os.path.join(VERIF, 'known_findings.json')
 
 
@@ -274,7 +274,7 @@ def _child(cell, twin, conn):
         conn.close()
 
 
-def run_cells(cells, jobs=None, verbose=True):
+def run_cells(cells, jobs=None, verbose=True, budget=None):
     jobs = jobs or max(1, (os.cpu_count() or 4))
     todo = []
     for c in cells:
@@ -286,7 +286,19 @@ def run_cells(cells, jobs=None, verbose=True):
     running = []
     results = []
     ctx = mp.get_context('fork')
+    t_start = time.time()
     while todo or running:
+        if budget is not None and time.time() - t_start > budget:
+            for pr, pc, cell, twin, t0 in running:
+                pr.kill()
+                pr.join()
+                results.append({'cell': cell.name, 'twin': twin, 'status': 'timeout', 'errors': [], 'wall_s': time.time() - t0})
+                if verbose:
+                    _brief(results[-1])
+            for cell, twin in todo:
+                results.append({'cell': cell.name, 'twin': twin, 'status': 'timeout', 'errors': [], 'wall_s': 0.0})
+            running, todo = [], []
+            break
         while todo and len(running) < jobs:
             cell, twin = todo.pop(0)
             pc, cc = ctx.Pipe(duplex=False)
@@ -375,13 +387,17 @@ def main_property(prop, tier, cells, meta, jobs=None):
         cap = int(os.environ.get('VERIF_THOROUGH_CELL_CAP', '1500') or 1500)
         for c in sel:
             c.timeout_s = min(c.timeout_s, cap)      # bounds the wall time of one thorough run (cells run in parallel)
+    budget = None
     if tier == 'quick':
+        # the quick command is meant to run on every change: every cell is capped and the whole run has a wall budget;
+        # cells still running at the budget are stopped and reported as timeouts (inconclusive), never as success
+        budget = int(os.environ.get('VERIF_QUICK_BUDGET', '780') or 780)
         for c in sel:
-            c.timeout_s = min(c.timeout_s, 900)      # a stuck solver call must not stall the quick tier
+            c.timeout_s = min(c.timeout_s, 420)
             if c.twin_timeout_s:
                 c.twin_timeout_s = min(c.twin_timeout_s, 300)
     print('property %s tier=%s: %d cells' % (prop, tier, len(sel)), flush=True)
-    results = run_cells(sel, jobs=jobs)
+    results = run_cells(sel, jobs=jobs, budget=budget)
     known = load_known()
     violations, knownhits, harness_errors = [], [], []
     agg = dict(paths=0, decisions=0, n_ob=0, n_ok=0, n_unknown=0, n_trivial=0, queries=0, solver_s=0.0,
